@@ -34,7 +34,7 @@ pub fn rle(mem: &[u8]) -> Value {
 }
 
 pub fn pattern(h: u32) -> u8 {
-  (((h - 1) % 200) + 1) as u8
+  (((h - 1) % 250) + 1) as u8
 }
 
 pub const RESERVED_PATTERN: u8 = 0xEE;
